@@ -149,7 +149,7 @@ def generate(prop, tier, seed):
             body.append("\n".join(lines))
         tier_of = "quick" if all(len(t) <= 3 for t in chunk) else "thorough"
         if prop in ("C08", "C01") or True:
-            out += '\n// @verif prop=C08,C01,C12 tier=%s timeout=600 mem=5000 cost=60 arms=%d clause="reply/DATA parser contract on every class string (also unbalanced quotes): never an empty item list, bytes consumed within the text, no panic"\n' % (tier_of, len(chunk))
+            out += '\n// @verif prop=C08,C01,C12 tier=%s timeout=900 mem=9000 cost=60 arms=%d clause="reply/DATA parser contract on every class string (also unbalanced quotes): never an empty item list, bytes consumed within the text, no panic"\n' % (tier_of, len(chunk))
             out += '// @verif sample="class strings over {L,Q,B,C,K}: %s ..." bounds="all class strings of length <= %d"\n' % (", ".join(x or "(empty)" for x in chunk[:5]), maxlen)
             out += "#[kani::proof]\n#[kani::unwind(8)]\n#[kani::stub(<f64 as std::str::FromStr>::from_str, crate::data::verif_data_units::stub_parse_f64)]\n"
             out += "fn c08_data_contract_%d() {\n%s\n    kani::cover!(true, \"reached_end\");\n}\n" % (nc, "\n".join(body))
